@@ -137,20 +137,24 @@ Section ValidationProofs.
   Context {F : Type}.
   Variable pos0 isz : F -> bool.
   Variable bwF : mapid -> F -> F.
+  Variable ovf : mapid -> F -> option (xval F).
   Variable zero : F.
   Hypothesis zero_not_pos : pos0 zero = false.
 
-  Notation check_pf := (check_pf pos0 isz bwF zero).
-  Notation model_init := (model_init pos0 isz bwF zero).
-  Notation model_set := (model_set pos0 isz bwF zero).
+  Notation check_pf := (check_pf pos0 isz bwF ovf zero).
+  Notation model_init := (model_init pos0 isz bwF ovf zero).
+  Notation model_set := (model_set pos0 isz bwF ovf zero).
 
   (* what an accepted cell value is *)
   Definition accepts (m : mapid) (p : pname) (v : xval F) : Prop :=
     match v with
     | Fin x =>
         if is_property p
-        then match m with MResistivity => isz x = false | _ => True end
-             /\ pos0 (bwF m x) = true
+        then match ovf m x with
+             | Some s => xpos pos0 s = true /\ xfin s = true   (* over-/underflow of backward *)
+             | None => match m with MResistivity => isz x = false | _ => True end
+                       /\ pos0 (bwF m x) = true
+             end
         else pos0 x = true
     | NegZero =>      (* -0.0: the finite value 0 under the log maps *)
         if is_property p
@@ -164,11 +168,13 @@ Section ValidationProofs.
 
   Lemma accepts_iff_bool m p v :
     accepts m p v <->
-    xpos pos0 (if is_property p then bwx isz bwF zero m v else v) = true /\
-    xfin (if is_property p then bwx isz bwF zero m v else v) = true.
+    xpos pos0 (if is_property p then bwx isz bwF ovf zero m v else v) = true /\
+    xfin (if is_property p then bwx isz bwF ovf zero m v else v) = true.
   Proof using zero_not_pos.
     destruct v as [x| | | |]; cbn [accepts]; destruct (is_property p);
-      destruct m; cbn; rewrite ?zero_not_pos; try destruct (isz x); cbn;
+      destruct m; cbn;
+      repeat match goal with |- context [ovf ?mm ?xx] => destruct (ovf mm xx) end;
+      rewrite ?zero_not_pos; try destruct (isz x); cbn;
       intuition (try discriminate).
   Qed.
 
@@ -201,9 +207,9 @@ Section ValidationProofs.
         split; try tauto; try discriminate; intros [? ?]; discriminate. }
     assert (G : List.Forall (accepts m p) values <->
                 (forallb (xpos pos0) (if is_property p
-                     then map (bwx isz bwF zero m) values else values) = true /\
+                     then map (bwx isz bwF ovf zero m) values else values) = true /\
                  forallb xfin (if is_property p
-                     then map (bwx isz bwF zero m) values else values) = true)).
+                     then map (bwx isz bwF ovf zero m) values else values) = true)).
     { rewrite forallb_two.
       destruct (is_property p) eqn:Ep.
       - rewrite List.Forall_map. apply Forall_iff_ext. intros v.
@@ -221,14 +227,15 @@ Section ModelProofs.
   Context {F : Type}.
   Variable pos0 isz : F -> bool.
   Variable bwF : mapid -> F -> F.
+  Variable ovf : mapid -> F -> option (xval F).
   Variable zero : F.
   Hypothesis zero_not_pos : pos0 zero = false.
 
-  Notation check_pf := (check_pf pos0 isz bwF zero).
-  Notation init_parameter := (init_parameter pos0 isz bwF zero).
-  Notation model_init := (model_init pos0 isz bwF zero).
-  Notation model_set := (model_set pos0 isz bwF zero).
-  Notation accepts := (accepts pos0 isz bwF zero).
+  Notation check_pf := (check_pf pos0 isz bwF ovf zero).
+  Notation init_parameter := (init_parameter pos0 isz bwF ovf zero).
+  Notation model_init := (model_init pos0 isz bwF ovf zero).
+  Notation model_set := (model_set pos0 isz bwF ovf zero).
+  Notation accepts := (accepts pos0 isz bwF ovf zero).
 
   Definition opt_ok (m : mapid) (p : pname) (o : option (list (xval F))) : Prop :=
     match o with None => True | Some vs => List.Forall (accepts m p) vs end.
@@ -241,7 +248,7 @@ Section ModelProofs.
   Lemma init_parameter_ok m p o : init_parameter m p o = None <-> opt_ok m p o.
   Proof using zero_not_pos.
     destruct o as [vs|]; unfold Maps.init_parameter, opt_ok; [|tauto].
-    rewrite (check_pf_accepts pos0 isz bwF zero zero_not_pos). split.
+    rewrite (check_pf_accepts pos0 isz bwF ovf zero zero_not_pos). split.
     - now intros [_ H].
     - intros H; split; [discriminate|exact H].
   Qed.
@@ -285,10 +292,10 @@ Section ModelProofs.
     destruct (check_pf (m_map md) (Some (get_prop md p)) p vs) eqn:E.
     - split; [discriminate|]. intros (Hn & Hf & _).
       assert (check_pf (m_map md) (Some (get_prop md p)) p vs = None) as E'.
-      { apply (check_pf_accepts pos0 isz bwF zero zero_not_pos). split; [|exact Hf].
+      { apply (check_pf_accepts pos0 isz bwF ovf zero zero_not_pos). split; [|exact Hf].
         intros H; injection H as H. contradiction. }
       rewrite E' in E; discriminate.
-    - apply (check_pf_accepts pos0 isz bwF zero zero_not_pos) in E. destruct E as [Hn Hf].
+    - apply (check_pf_accepts pos0 isz bwF ovf zero zero_not_pos) in E. destruct E as [Hn Hf].
       split.
       + intros H; injection H as <-. repeat split; try assumption.
         intros H; apply Hn; now rewrite H.
@@ -325,17 +332,19 @@ Section ModelProofs.
 
   Lemma check_pf_ext (bwF' : mapid -> F -> F) m attr p values :
     (forall x, pos0 (bwF m x) = pos0 (bwF' m x)) ->
-    check_pf m attr p values = Maps.check_pf pos0 isz bwF' zero m attr p values.
+    check_pf m attr p values = Maps.check_pf pos0 isz bwF' ovf zero m attr p values.
   Proof.
     intros H. unfold Maps.check_pf. destruct attr as [[l|]|]; try reflexivity;
       destruct (is_property p); try reflexivity; rewrite !forallb_map';
-      (assert (E1 : forall v, xpos pos0 (bwx isz bwF zero m v)
-                           = xpos pos0 (bwx isz bwF' zero m v))
+      (assert (E1 : forall v, xpos pos0 (bwx isz bwF ovf zero m v)
+                           = xpos pos0 (bwx isz bwF' ovf zero m v))
          by (intros [x| | | |]; destruct m; cbn; try reflexivity; try apply H;
+             try (destruct (ovf _ x); [reflexivity|]); cbn; try apply H;
              destruct (isz x); cbn; try reflexivity; apply H));
-      (assert (E2 : forall v, xfin (bwx isz bwF zero m v)
-                           = xfin (bwx isz bwF' zero m v))
+      (assert (E2 : forall v, xfin (bwx isz bwF ovf zero m v)
+                           = xfin (bwx isz bwF' ovf zero m v))
          by (intros [x| | | |]; destruct m; cbn; try reflexivity;
+             try (destruct (ovf _ x); [reflexivity|]); cbn; try reflexivity;
              destruct (isz x); reflexivity));
       rewrite (forallb_ext' _ _ _ E1), (forallb_ext' _ _ _ E2); reflexivity.
   Qed.
@@ -361,13 +370,13 @@ Lemma backward_res_zero : backward MResistivity 0 = 0.
 Proof. cbv [backward backward_Resistivity]. unfold Rdiv. rewrite Rinv_0. ring. Qed.
 
 Lemma accepts_R m p v :
-  accepts Rpos0 Risz backward 0 m p v <->
+  accepts Rpos0 Risz backward no_ovf 0 m p v <->
   exists x, xreal v = Some x /\ 0 < checked_value m p x.
 Proof.
   unfold checked_value.
   destruct v as [x| | | |]; cbn [accepts xreal].
   - destruct (is_property p).
-    + rewrite Rpos0_true. split.
+    + unfold no_ovf. cbv beta iota. rewrite Rpos0_true. split.
       * intros [_ H]. exists x; auto.
       * intros [y [E H]]. injection E as ->. split; [|exact H].
         destruct m; auto. apply Risz_false. intros ->.
@@ -395,18 +404,18 @@ Qed.
    attribute is not None and every cell is a finite number whose conductivity
    (resp. mu_r / epsilon_r value) is positive. *)
 Lemma check_pf_R m attr p values :
-  check_pf Rpos0 Risz backward 0 m attr p values = None <->
+  check_pf Rpos0 Risz backward no_ovf 0 m attr p values = None <->
   attr <> Some None /\
   List.Forall (fun v => exists x, xreal v = Some x /\ 0 < checked_value m p x) values.
 Proof.
-  rewrite (check_pf_accepts Rpos0 Risz backward 0 Rpos0_zero).
+  rewrite (check_pf_accepts Rpos0 Risz backward no_ovf 0 Rpos0_zero).
   apply and_iff_compat_l. apply Forall_iff_ext. intros v. apply accepts_R.
 Qed.
 
 (* for the four log maps every finite value is accepted *)
 Lemma log_maps_accept_all_finite m p x :
   map_is_log m = true -> is_property p = true ->
-  accepts Rpos0 Risz backward 0 m p (Fin x).
+  accepts Rpos0 Risz backward no_ovf 0 m p (Fin x).
 Proof.
   intros Hl Hp. apply accepts_R. exists x. split; [reflexivity|].
   unfold checked_value. rewrite Hp. now apply backward_pos_log.
@@ -415,12 +424,12 @@ Qed.
 (* executable instance = real instance as far as acceptance is concerned:
    for the log maps bw_exec returns 1, and the real backward is positive *)
 Lemma check_pf_exec_sign m attr p values :
-  check_pf Rpos0 Risz backward 0 m attr p values
+  check_pf Rpos0 Risz backward no_ovf 0 m attr p values
   = check_pf Rpos0 Risz
       (fun m x => match m with
                   | MConductivity => backward MConductivity x
                   | MResistivity => backward MResistivity x
-                  | _ => 1 end) 0 m attr p values.
+                  | _ => 1 end) no_ovf 0 m attr p values.
 Proof.
   apply check_pf_ext. intros x. destruct m; try reflexivity;
     (transitivity true; [apply Rpos0_true; apply backward_pos_log; reflexivity
@@ -444,5 +453,10 @@ Lemma validation_examples_Q :
   check_pf_Q MLgConductivity None PX [Fin (-3#1); NInf]%Q = Some ErrPositive /\
   check_pf_Q MLgConductivity None PX [Fin (-3#1); Fin 0]%Q = None /\
   check_pf_Q MConductivity None PMu [Fin (-3#1)]%Q = Some ErrPositive /\
-  check_pf_Q MConductivity (Some None) PY [Fin (3#1)]%Q = Some ErrNone.
+  check_pf_Q MConductivity (Some None) PY [Fin (3#1)]%Q = Some ErrNone /\
+  (* float range: 10**400 = inf, 10**-400 = 0.0, exp(-800) = 0.0, 10**300 is fine *)
+  check_pf_Q MLgConductivity None PX [Fin (400#1)]%Q = Some ErrFinite /\
+  check_pf_Q MLgConductivity None PX [Fin (-400#1)]%Q = Some ErrPositive /\
+  check_pf_Q MLnResistivity None PZ [Fin (800#1)]%Q = Some ErrPositive /\
+  check_pf_Q MLgResistivity None PY [Fin (300#1)]%Q = None.
 Proof. vm_compute. repeat split. Qed.
